@@ -23,7 +23,7 @@ META = {
 LEVEL = META['level']
 RULE = ('a case = one client call (pylogix) or one reference-encoded request compared with the model; distinct by (configuration, call, position); non-trivial = a value or a documented error status was compared')
 ASSUMPTIONS = ['pylogix status strings: Success=0x00, "Path destination unknown"=0x05, "Unknown error 255"=0xFF']
-REQUIRED = ['pylogix:sessions', 'pylogix:read', 'pylogix:write', 'pylogix:read-large-array', 'pylogix:multi-read', 'pylogix:error-out-of-range', 'pylogix:error-unknown-tag',
+REQUIRED = ['pylogix:read-at-reply-capacity', 'pylogix:sessions', 'pylogix:read', 'pylogix:write', 'pylogix:read-large-array', 'pylogix:multi-read', 'pylogix:error-out-of-range', 'pylogix:error-unknown-tag',
             'pylogix:forward-open-seen', 'pylogix:forward-close-seen', 'ref:unconnected', 'ref:connected', 'ref:sequence-echoed', 'types:unsigned', 'types:LREAL', 'types:BOOL']
 TIMEOUT = {'quick': 300, 'thorough': 2400}
 SOFT = {'quick': 30, 'thorough': 600}
@@ -75,6 +75,25 @@ def pylogix_session(ctx, sim, cfg, model, rng, ncalls):
     comm.Port = sim.address[1]
     ctx.count('pylogix:sessions')
     try:
+        # reads whose data is exactly one / two reply capacities (488 bytes), one element less and one more: the sizes at which the
+        # simulator's "more data follows" status decides whether the other implementation asks for a further fragment
+        from vlib import refcodec as rc_
+        big = tmap['Big']
+        q = 488 // rc_.size_of(big[1])
+        for cnt in (q, q - 1, q + 1, 2 * q):
+            if cnt > big[2]:
+                continue
+            i0 = rng.randrange(0, big[2] - cnt + 1)
+            call = ('Read', 'Big[%d]' % i0, cnt)
+            wit['calls'].append(call)
+            resp = comm.Read('Big[%d]' % i0, cnt)
+            want = model.read([{'symbolic': 'Big'}, {'element': i0}], cnt, budget=10**9)['read_tag']['data']
+            ctx.count('pylogix:read-at-reply-capacity')
+            got = resp.Value if isinstance(resp.Value, list) else [resp.Value]
+            if STATUS.get(resp.Status) != 0 or len(got) != len(want) or not all(same(big[1], a, b) for a, b in zip(got, want)):
+                ctx.violation('independent-client-fragmented-read-differs', 'pylogix Read(Big[%d],%d) (%d bytes) -> %r, %d values' % (
+                    i0, cnt, cnt * rc_.size_of(big[1]), resp.Status, len(got)), wit)
+                return
         for k in range(ncalls):
             r = rng.random()
             name, t, n, _ = rng.choice(cfg)
